@@ -8,6 +8,7 @@ import (
 	"encoding/json"
 	"fmt"
 	"io"
+	"math"
 
 	"github.com/dtn7/cboring"
 )
@@ -43,6 +44,11 @@ func (hcb HopCountBlock) IsExceeded() bool {
 
 // Increment the hop counter and returns if the hop limit is exceeded afterwards.
 func (hcb *HopCountBlock) Increment() bool {
+	// The counter must not wrap around: one more hop exceeds each limit.
+	if hcb.Count == math.MaxUint8 {
+		return true
+	}
+
 	hcb.Count++
 
 	return hcb.IsExceeded()
